@@ -111,6 +111,15 @@ CHECKS["C18"] = dict(
     technique="TLA+ spec + TLC exhaustive model checking + TLC trace validation of real outputs",
     design_ref="DESIGN.md section 4 C18, F.8", engine="FreeForm")
 
+CHECKS["C07"] = dict(
+    level="model_checking",
+    text=("InlineTrans is applied to every call (and call sequence) of ~40 generated caller/callee pairs "
+          "(element actuals whose index the callee modifies, sections, whole arrays with other lower bounds, "
+          "assumed shape, expression actuals, clashing locals, module variables); accepted results are "
+          "executed before/after by TLC under FortranSem.tla, whose CALL binds dummies to the caller's "
+          "storage at the call, on every input of the domain."),
+    note=SEM_NOTE, technique=SEM_TECH, design_ref="DESIGN.md section 4 C07", engine="FortranSem")
+
 NOT_YET = {}
 
 ALL = [f"C{i:02d}" for i in range(1, 30)]
